@@ -212,7 +212,7 @@ struct Engine
     std::vector<Node>                  nodes;
     std::unordered_set<H128, H128H>    seen;
     std::unordered_map<uint64_t, int>  seen_depth; // only filled up to sweep depth
-    long                               transitions{0}, states{0}, foreign{0}, unattr{0}, execs{0}, adopted{0}, crashes_contained{0};
+    long                               transitions{0}, states{0}, foreign{0}, unattr{0}, execs{0}, adopted{0}, crashes_contained{0}, nondet{0};
     int                                max_depth{0};
     bool                               fixpoint{false}, capped{false};
     double                             t0;
@@ -341,8 +341,13 @@ struct Engine
         Tr t1 = exec(hist, &op), t2 = exec(hist, &op);
         if (!t1.crashed && !t2.crashed && (t1.r != t2.r || t1.dump != t2.dump))
         {
-            fprintf(stderr, "HARNESS ERROR: nondeterministic replay of %s\n", hist_str(h).c_str());
-            exit(3);
+            // The library's behaviour on this history is not a function of the history (it depends on
+            // uninitialised or freed memory): no verdict on a functional property can be trusted here.
+            nondet++;
+            if (report & P(8))
+                props = P(8);
+            else
+                return;
         }
         std::string key = pm_str(props & report) + "|" + clause.substr(0, 40);
         if (viol_keys.count(key) && viols.size() >= 3)
@@ -1040,10 +1045,17 @@ struct Engine
                 // canon-on-replay: the same history must give the same dump twice
                 {
                     Tr r1 = exec(hist, nullptr), r2 = exec(hist, nullptr);
-                    if (r1.dump != r2.dump)
+                    if (r1.crashed || r2.crashed || r1.dump != r2.dump)
                     {
-                        fprintf(stderr, "HARNESS ERROR: replay not canonical for %s\n", hist_str(hist).c_str());
-                        exit(3);
+                        // two executions of one history disagree: behaviour depends on uninitialised / freed
+                        // memory.  Memory-safety verdict (C08); every other property stops exploring here.
+                        nondet++;
+                        if ((report & P(8)) && !hist.empty())
+                        {
+                            std::vector<Op> hp(hist.begin(), hist.end() - 1);
+                            record_violation(hp, hist.back(), P(8), "two executions of the same call sequence end in different states (behaviour depends on uninitialised or freed memory)");
+                        }
+                        continue;
                     }
                 }
                 expand_state(hist, st.m, depth, succ);
@@ -1101,7 +1113,7 @@ struct Engine
             long            tr_before = transitions;
             sweep_rec(h, m0, 0, sweep_depth);
             transitions = tr_before + (transitions - tr_before); // sweep executions are counted too
-            if (!time_up())
+            if (!time_up() && nondet == 0 && crashes_contained == 0)
                 for (auto& kv : sweep_keys)
                 {
                     auto it = depth_of.find(kv.first);
@@ -1205,7 +1217,7 @@ struct Engine
         printf(
             "\"states\":%ld,\"transitions\":%ld,\"executions\":%ld,\"max_depth\":%d,\"fixpoint\":%s,\"capped\":%s,"
             "\"sweep_depth\":%d,\"sweep_seqs\":%ld,\"foreign_pruned\":%ld,\"unattributed_pruned\":%ld,"
-            "\"distinct_outcomes\":%zu,\"c15_groups\":%ld,\"crashes_contained\":%ld,\"wall_s\":%.2f,",
+            "\"distinct_outcomes\":%zu,\"c15_groups\":%ld,\"crashes_contained\":%ld,\"nondeterministic\":%ld,\"wall_s\":%.2f,",
             states,
             transitions,
             execs,
@@ -1219,6 +1231,7 @@ struct Engine
             outcomes.size(),
             c15_groups,
             crashes_contained,
+            nondet,
             wall() - t0);
         printf("\"samples\":[");
         for (size_t i = 0; i < samples.size(); i++)
